@@ -918,3 +918,32 @@ def int_range_rule(rep, F):
                 if hi is not None and hi != (1 << 64) - 1:
                     rep.violation("INT-span", "Int::from_str|upper|%d" % hi, "Int::from_str accepts values up to %d; the range of an Int is -2^64 ..= 2^64 - 1" % hi, {})
     rep.floor("Int constructions in Int::from_str", 1, n)
+
+
+def ser_filter_rule(rep, F):
+    """a CBOR writer writes what is stored: no filtering of fields or elements on the way out"""
+    rep.rule("SER-filter", "no CBOR writer (cbor_event::Serialize impl or serialize_* helper) passes a field or its elements through a filtering adaptor (Option::filter / take_if / xor, Iterator::filter / filter_map / flat_map / flatten / take / skip / find ...) outside the audited inventory: a value the reader can produce and the API can hold is written as it is - a writer that drops `redundant` content (a protocol magic equal to the mainnet one) makes decode(encode(v)) differ from v")
+    OK = {("<VotingProcedures as cbor_event::Serialize>::serialize", "filter"): "counts the voters that have votes - the declared map length of exactly the entries the loop below writes (W-len checks the agreement)"}
+    DROP = re.compile(r"(Iterator::(filter|filter_map|flat_map|flatten|take|skip|take_while|skip_while|find|step_by|map_while)$|Option::<T>::(filter|take_if|xor)$)")
+    got = {}
+    n = 0
+    for fid, fn in F.fns.items():
+        if "/tests/" in fn["file"] or F.is_derived(fid):
+            continue
+        base = fid.split("::{closure")[0]
+        it = (F.fns.get(base) or {}).get("impl_trait") or ""
+        last = base.rsplit("::", 1)[-1]
+        if not it.startswith("cbor_event::Serialize") and not (fn["file"].startswith("src/serialization/") and "serialize" in last and "deserialize" not in last):
+            continue
+        n += 1
+        for c in F.calls(fid):
+            if DROP.search(c.to or ""):
+                k = (F.key(base), (c.to or "").rsplit("::", 1)[-1])
+                got[k] = got.get(k, 0) + 1
+    rep.inst("SER-filter", n)
+    for k, m in sorted(got.items()):
+        if k in OK and m <= 1:
+            rep.allow("SER-filter", m)
+            continue
+        rep.violation("SER-filter", "%s|%s" % k, "%s passes what it writes through `%s`: content the value holds is dropped on the wire, so the decoded value (and the re-encoded bytes of a decoded one) differ from the original" % k, {})
+    rep.floor("CBOR writer functions inspected", 150, n)
